@@ -1215,3 +1215,74 @@ def field_validator_rows(ctx):
         rows.append({"ok": ok, "case": case, "message": f"{case}: the validators give {got}{'' if got_vals is None else ' ' + str(got_vals)}; the format "
                                                           f"prescribes {want}{'' if want_vals is None else ' ' + str(want_vals)}"})
     return rows
+
+
+def error_code_rows(ctx):
+    """G21: the per-line translation of codegen.generate_error_codes.main -- the body of its loop over the listing's lines, lifted into a
+    function by an AST transformation (print(x, file=...) -> collect x; continue -> return) and evaluated by E2 on representative
+    rows of the listing, the negative code and the docstring-less code 0 among them.  Every row must yield its member line."""
+    I = ctx.interp
+    from .source import add_virtual
+    src = ctx.sm.require("codegen.generate_error_codes")
+    main = next((n for n in src.tree.body if isinstance(n, ast.FunctionDef) and n.name == "main"), None)
+    if main is None:
+        raise AnalysisError("anchor vanished: codegen.generate_error_codes.main")
+    loops = [n for n in ast.walk(main) if isinstance(n, ast.For) and isinstance(n.target, ast.Name) and
+             any(isinstance(c, ast.Call) and ast.unparse(c.func).split(".")[-1] == "parse_line" for st in n.body for c in ast.walk(st))]
+    if len(loops) != 1:
+        raise AnalysisError(f"codegen.generate_error_codes.main: {len(loops)} loops that parse lines of the listing (expected one)")
+    loop = loops[0]
+
+    class Lift(ast.NodeTransformer):
+        def visit_Continue(self, node):
+            return ast.Return(value=ast.Constant(value=None))
+
+        def visit_Break(self, node):
+            return ast.Return(value=ast.Constant(value="<break>"))
+
+        def visit_Expr(self, node):
+            self.generic_visit(node)
+            c = node.value
+            if isinstance(c, ast.Call) and isinstance(c.func, ast.Name) and c.func.id == "print" and len(c.args) == 1:
+                return ast.Expr(value=ast.Call(func=ast.Attribute(value=ast.Name(id="_kverif_out", ctx=ast.Load()), attr="append", ctx=ast.Load()),
+                                               args=[c.args[0]], keywords=[]))
+            return node
+    body = [Lift().visit(ast.parse(ast.unparse(st)).body[0]) for st in loop.body]
+    names = sorted({n.name for n in src.tree.body if isinstance(n, (ast.FunctionDef, ast.ClassDef))} |
+                   {t.id for n in src.tree.body if isinstance(n, (ast.Assign, ast.AnnAssign))
+                    for t in (n.targets if isinstance(n, ast.Assign) else [n.target]) if isinstance(t, ast.Name)})
+    fn = ast.FunctionDef(name="_kverif_line", args=ast.arguments(posonlyargs=[], args=[ast.arg(arg=loop.target.id), ast.arg(arg="_kverif_out")],
+                                                                  kwonlyargs=[], kw_defaults=[], defaults=[]),
+                         body=body, decorator_list=[], type_params=[])
+    text = f"from codegen.generate_error_codes import {', '.join(n for n in names if n != 'main')}\n\n" + ast.unparse(ast.fix_missing_locations(ast.Module(body=[fn], type_ignores=[]))) + "\n"
+    modname = "codegen._kverif_error_lines"
+    if ctx.sm.get(modname) is not None:
+        ctx.sm.modules.pop(modname, None)
+    add_virtual(ctx.sm, modname, text)
+    try:
+        f = I.module(modname).env.vars.get("_kverif_line")
+    except (Raised, Limit) as e:
+        raise AnalysisError(f"lifted loop body of generate_error_codes.main not understood: {e}")
+    samples = [(-1, "UNKNOWN_SERVER_ERROR", False, "The server experienced an unexpected error when processing the request."),
+               (0, "NONE", False, "None"), (1, "OFFSET_OUT_OF_RANGE", False, "The requested offset is not within the range of offsets maintained by the server."),
+               (3, "UNKNOWN_TOPIC_OR_PARTITION", True, "This server does not host this topic-partition."),
+               (127, "REBOOTSTRAP_REQUIRED", False, "Client metadata is stale, client should rebootstrap to obtain new metadata.")]
+    rows = []
+    for code, name, retriable, msg in samples:
+        line = f"{code} {name} {retriable} {msg}\n"
+        out = ListV([])
+        case = f"listing row {line.strip()[:50]!r}"
+        try:
+            I.call(f, [line, out], {}, Run(), None)
+        except Raised as r:
+            rows.append({"ok": False, "case": case, "message": f"{case}: raises {short_exc(r.cls)} at {r.site}"})
+            continue
+        except Limit as e:
+            raise AnalysisError(f"generate_error_codes loop body not understood: {e}")
+        got = [x for x in out.items]
+        want = f"    {name.lower()} = {code}, {retriable}"
+        ok = bool(got) and got[0] == want and (code == 0 or (len(got) > 1 and isinstance(got[1], str) and msg in got[1]))
+        rows.append({"ok": ok, "case": case,
+                     "message": f"{case}: the generator emits {got[:2]!r}; the listing row defines the member line {want!r}"
+                                + ("" if got else " -- the row is dropped, the code is missing from ErrorCode")})
+    return rows
